@@ -536,6 +536,8 @@ func (s *sim) genStakingPayload(a *acct, f *txFields) (data []byte, what string,
 		amt := tokens(int64(10 + c.Intn("damt", 90)))
 		if c.Chance("damt-low", 1, 8) {
 			amt = tokens(1) // below MinDelegationTokens
+		} else if c.Chance("damt-huge", 1, 8) {
+			amt = tokens(int64(1_100_000 + c.Intn("damt-over", 1000))) // affordable, above every role's maximum stake
 		}
 		return enc(staking.DelegationAdd, &staking.TxDelegation{Validator: v, Value: amt}), fmt.Sprintf("delegation-add %s %v", s.addrName(v), amt), amt, false
 	case 1: // validator create from this client account
@@ -547,6 +549,8 @@ func (s *sim) genStakingPayload(a *acct, f *txFields) (data []byte, what string,
 		amt := tokens(int64(500 + c.Intn("vstake", 500)))
 		if c.Chance("vstake-low", 1, 8) {
 			amt = tokens(100) // below MinSelfStakes
+		} else if c.Chance("vstake-over-max", 1, 8) {
+			amt = tokens(int64(180_001 + c.Intn("vstake-over", 1000))) // affordable, above the role's maximum stake: refused by the handler
 		}
 		coinbase := a.addr
 		tx := &staking.TxCreateValidator{Name: "cv" + vk.Name(), OperatorAddress: a.addr, Coinbase: coinbase,
@@ -569,6 +573,15 @@ func (s *sim) genStakingPayload(a *acct, f *txFields) (data []byte, what string,
 		}
 		cv := s.clientVals[c.Intn("dep-val", len(s.clientVals))]
 		amt := tokens(int64(1 + c.Intn("dep", 50)))
+		if c.Chance("dep-over-max", 1, 4) {
+			// the operator can afford it, but the validator would exceed its role's maximum stake:
+			// the handler refuses after its balance check (a failed transaction stakes nothing)
+			amt = tokens(int64(180_000 + c.Intn("dep-over", 1000)))
+		}
+		if c.Chance("dep-as-withdraw", 1, 6) {
+			w := tokens(int64(1 + c.Intn("wd", 2000)))
+			return enc(staking.ValidatorWithDraw, &staking.TxValidatorWithdraw{MainAddress: cv.key.Addr, Recipient: a.addr, Value: w, Nonce: f.Nonce}), fmt.Sprintf("validator-withdraw %s %v", cv.key.Name(), w), nil, false
+		}
 		return enc(staking.ValidatorDeposit, &staking.TxValidatorDeposit{MainAddress: cv.key.Addr, Value: amt, Nonce: f.Nonce}), fmt.Sprintf("validator-deposit %s %v", cv.key.Name(), amt), amt, false
 	case 3: // delegation sub
 		v := targets[c.Intn("sval", len(targets))]
